@@ -9,6 +9,7 @@ failures)."""
 import z3
 
 from vf.pyvc.dsl import (Contract, Const, OneOf, Helper, PExt, SameAs, PObj, PExc, PList, SBool, Str)
+from vf.pyvc.engine import PGen
 
 MODULE = 'calmjs.parse.io'
 
@@ -124,8 +125,16 @@ def build(module):
             return PObj(Node, name='node')
 
     class UnparserModel(object):
+        """calling the unparser gives a generator; what it yields is the printer's business -- possibly nothing at all
+        (minify of an empty program), which must not be mistaken for 'no nodes given'"""
+        def __init__(self, nchunks):
+            self.n = nchunks
+
         def make(self, name):
-            return PExt('unparser', lambda e, a, k: PObj(object, name='chunks'), raises=(Boom,))
+            return PExt('unparser', lambda e, a, k: PGen([PObj(object, name='chunk%d' % i) for i in range(self.n)]), raises=(Boom,))
+
+        def __repr__(self):
+            return 'Unparser(yields %d)' % self.n
 
     arrangements = [
         ('out factory, no map', Factory(w), Const(None)),
@@ -137,10 +146,10 @@ def build(module):
         ('out open, map factory', OpenStream(w), Factory(w)),
         ('out open, map open', OpenStream(w), OpenStream(w)),
     ]
-    for label, out_t, map_t in arrangements:
+    for label, out_t, map_t, nch in [(l + ', unparser yields %d chunks' % n_, o, m, n_) for l, o, m in arrangements for n_ in (0, 2)]:
         cs.append(Contract(
             MODULE + ':write',
-            params={'unparser': UnparserModel(), 'nodes': NodeModel(), 'output_stream': out_t, 'sourcemap_stream': map_t,
+            params={'unparser': UnparserModel(nch), 'nodes': NodeModel(), 'output_stream': out_t, 'sourcemap_stream': map_t,
                     'sourcemap_normalize_mappings': Const(True), 'sourcemap_normalize_paths': Const(True),
                     'source_mapping_url': Const(NotImplemented)},
             ensures=['closed_right()', 'result is None'],
